@@ -312,6 +312,26 @@ static void verif_check_heap (sexp ctx, int full) {
               verif_fail("slot-points-to-non-object", p, (long)i, tag);
           }
         }
+#if SEXP_USE_WEAK_REFERENCES
+        if (sexp_type_weak_base(t) > 0) {
+          /* after a collection a weak slot holds #f or a live object, and the extra slots kept alive
+             through the weak ones (the value of an ephemeron) hold live objects too */
+          sexp *ws = (sexp*) (((char*)p) + sexp_type_weak_base(t));
+          sexp_sint_t wn = sexp_type_num_weak_slots_of_object(t, p) + sexp_type_weak_len_extra(t);
+          for (i = 0; i < wn && (char*)(ws + i) < (char*)p + size; i++) {
+            sexp v = ws[i];
+            sexp_heap vh;
+            sexp_sint_t vi;
+            if (!v || !sexp_pointerp(v)) continue;
+            vh = verif_heap_of(ctx, v);
+            if (!vh) { verif_fail("weak-slot-points-outside-heaps", p, (long)i, tag); continue; }
+            if (((char*)v - vh->data) % VERIF_UNIT) { verif_fail("weak-slot-misaligned-target", p, (long)i, tag); continue; }
+            vi = ((char*)v - vh->data) / VERIF_UNIT;
+            if (!(bitmaps[verif_heap_index(ctx, vh)][vi >> 3] & (1 << (vi & 7))))
+              verif_fail("weak-slot-points-to-non-object", p, (long)i, tag);
+          }
+        }
+#endif
         p = (sexp) (((char*)p) + size);
       }
     }
